@@ -179,8 +179,8 @@ def main():
         (r"^<std::result::Result<.*> as FromResidual<std::result::Result<Infallible, ExecutionError>>>::from_residual$", m_from_residual),
         (r"^<Box<Expression> as Deref>::deref$", m_box_deref),
         (r"^<Arc<Vec<Value>> as Deref>::deref$", m_arc_deref),
-        (r"^<&Vec<Value> as IntoIterator>::into_iter$", m_into_iter),
-        (r"^<std::slice::Iter<'_, Value> as Iterator>::next$", m_iter_next),
+        (r"^<&Vec<(?:Value|Expression|IdedExpr)> as IntoIterator>::into_iter$", m_into_iter),
+        (r"^<std::slice::Iter<'_, (?:Value|Expression|IdedExpr)> as Iterator>::next$", m_iter_next),
         (r"^<Value as Clone>::clone$", m_value_clone),
         (r"^std::result::Result::<\(\), Infallible>::expect$", m_expect),
         (r"^Vec::<Value>::is_empty$", lambda e, m, a: len((lambda v: v[1] if isinstance(v, tuple) else v)(deref(e, a[0]))) == 0),
@@ -199,6 +199,9 @@ def main():
     def shape_of(h):
         acc = [("opid", "inner_" + h), ident("@result")]
         if h == "range":
+            if shape_now.get("range") == "list literal":
+                # a list literal as the macro receiver: its elements are the range node's children, not this node's
+                return ("enum", "Expr::List", [[("vec", [[("opid", "re%d" % j), ("enum", "Expr::Call", [[S("f%d" % j), ("None",), ("vec", [])]])] for j in range(shape_now["n"])])]])
             return ident("xs")
         if h == "init":
             return ("enum", "Expr::Literal", [("enum", "Val::Boolean", [True])])
@@ -244,10 +247,13 @@ def main():
             "step": [err("step%d" % k) if errs == ("step", k) else ok(("abs_val", "acc%d" % k)) for k in range(n + 1)],
             "result": err("result") if errs == ("result",) else ok(("abs_val", "final")),
         }
+        shape_now["n"] = n
+        for j in range(n):
+            results["re%d" % j] = ok(items[j])
         comp = [box("range"), ("string", "x"), ("None",), ("string", "@result"), box("init"), box("cond"), box("step"), box("result")]
         expr = [3, ("enum", "Expr::Comprehension", [comp])]
         pseudo = {0: expr}
-        desc = {"elements": n, "failing": list(errs) if errs else None, "range_kind": range_kind, "loop_condition_shape": shape_now["cond"]}
+        desc = {"elements": n, "failing": list(errs) if errs else None, "range_kind": range_kind, "loop_condition_shape": shape_now["cond"], "range_shape": shape_now.get("range", "identifier")}
 
         def entry(e):
             cur.clear()
@@ -298,7 +304,22 @@ def main():
                     final = results["result"]
             probs = []
             ev = [x for x in ev if x[0] != "value_eq"]
-            if [tuple(x) for x in ev] != want:
+
+            def canonical(trace):
+                """what is observable: the order of evaluations, the scope each one sees and what is bound at that time.
+                Opening the inner scope and binding the accumulator commute with evaluations in the OUTER scope that
+                precede the first evaluation in the inner scope: those are put first."""
+                trace = [tuple(x) for x in trace if x[0] != "new_inner_scope"]
+                k = next((i for i, x in enumerate(trace) if x[0] == "resolve" and x[2] != "outer"), len(trace))
+                head = trace[:k]
+                out = [x for x in head if x[0] == "resolve"] + [x for x in head if x[0] != "resolve"] + trace[k:]
+                # a binding that no later evaluation in the inner scope can see is not observable
+                last_inner = max([i for i, x in enumerate(out) if x[0] == "resolve" and x[2] != "outer"], default=-1)
+                return [x for i, x in enumerate(out) if x[0] != "bind" or i < last_inner]
+            opened = [x for x in ev if x[0] == "new_inner_scope"]
+            if final is not None and len(opened) > 1:
+                probs.append("more than one inner scope opened: %s" % (opened,))
+            if canonical(ev) != canonical(want):
                 probs.append("event trace differs: got %s expected %s" % (ev, want))
             if res != final:
                 probs.append("result %r, expected %r" % (res, final))
@@ -327,6 +348,14 @@ def main():
                 cases = [None, ("range",), ("init",), ("result",)] + [("cond", k) for k in range(n)] + [("step", k) for k in range(n)]
                 for c in cases:
                     scenario(n, c)
+        # the receiver written as a list literal (`[a, b].map(..)`): same obligations, the elements are not this node's to evaluate
+        shape_now["range"] = "list literal"
+        for cond_shape in ("nsf", "true"):
+            shape_now["cond"] = cond_shape
+            for n in range(0, DEPTH + 1):
+                for c in [None] + [("step", k) for k in range(n)]:
+                    scenario(n, c)
+        shape_now["range"] = "identifier"
         for rk in ("int", "null", "bool", "string"):
             scenario(0, None, rk)
     except Unsupported as u:
